@@ -501,6 +501,14 @@ def free_port_base(tag, count, lo=20000, hi=60000):
     import socket
     if tag in _port_cache:
         return _port_cache[tag]
+    # stay below the kernel's ephemeral range (net.ipv4.ip_local_port_range, 32768-60999 by default): the client side of the
+    # harnesses' own connections (connection churn, probes) takes ports from there at random, and a listener that a later
+    # scenario wants to open on such a port fails with EADDRINUSE - which used to show up as a spurious 500 / 404
+    try:
+        eph_lo = int(open("/proc/sys/net/ipv4/ip_local_port_range").read().split()[0])
+    except Exception:
+        eph_lo = 32768
+    lo, hi = 10000, max(12000, min(eph_lo, 32768) - 200)
     seed = int(hashlib.sha256(("%s/%d" % (tag, os.getpid())).encode()).hexdigest()[:8], 16)
     span = hi - lo - count
     for attempt in range(200):
